@@ -7,7 +7,7 @@ P = {
     "theorems": ["C12_errors_is_as_leaves", "C12_kind_table", "C12_same_status", "C12_F2_refuted",
                  "C12_never_success", "C12_never_success_stack", "C12_success_override_possible",
                  "C12_body_only_if_verbose", "C12_redirect_has_location", "C12_redirect_handler_response",
-                 "C12_www_authenticate_status", "C12_www_authenticate_challenge", "C12_www_authenticate_has_header", "C12_www_authenticate_has_header_fixed", "C12_fix_only_adds_challenge", "C12_F1_refuted",
+                 "C12_redirect_handler_code_is_3xx", "C12_success_redirect_not_creatable", "C12_www_authenticate_status", "C12_www_authenticate_challenge", "C12_www_authenticate_has_header", "C12_www_authenticate_has_header_fixed", "C12_fix_only_adds_challenge", "C12_F1_refuted",
                  "C12_F1_header_never_written", "C12_panic_response", "C12_nonvacuous"],
     "streams": [{
         "name": "translate", "pkg": "./internal/zzverif/c12", "test": "TestVerifC12",
